@@ -263,6 +263,8 @@ def no_contract_applies(e):
         return msg
     if type(e) is TypeError and _raised_in_code_under_test(e) and _protocol_missing_on_sidecar_object(e):
         return msg
+    if type(e) is AttributeError and _raised_in_code_under_test(e) and _missing_special_method_on_sidecar_object(e):
+        return msg
     if _renamed_in_repo(e):
         return msg
     return None
@@ -272,6 +274,31 @@ _PROTOCOL_WORDS = ("is not iterable", "is not subscriptable", "is not callable",
                    "does not support item assignment", "does not support item deletion", "does not support the context manager protocol",
                    "unhashable type", "not supported between instances of", "unsupported operand type", "is not a mapping", "must be an iterable",
                    "must be a mapping", "object cannot be interpreted as an integer")
+
+
+def _missing_special_method_on_sidecar_object(e):
+    """``AttributeError: __delitem__`` and the like: CPython looked up a special method that a sidecar proxy visible from the raising frame does not
+    define (e.g. ``del mapping[k]`` on a proxy that only models reads and writes)"""
+    name = str(e)
+    if not (name.startswith("__") and name.endswith("__") and name.isidentifier()):
+        return False
+    tb = e.__traceback__
+    last = None
+    while tb is not None:
+        last = tb
+        tb = tb.tb_next
+    if last is None:
+        return False
+    fr = last.tb_frame
+    seen = list(fr.f_locals.values()) + list(fr.f_globals.values())
+    for o in list(seen):
+        try:
+            d = vars(o)
+        except TypeError:
+            continue
+        if isinstance(d, dict) and len(d) < 200:
+            seen.extend(d.values())
+    return any(_is_sidecar_object(o) and not isinstance(o, type) and not hasattr(type(o), name) for o in seen)
 
 
 def _protocol_missing_on_sidecar_object(e):
